@@ -25,6 +25,17 @@ PROPS = {
         "rule": "queue cases: all (s,base,top,seq) with base,top<s, seq in 0..255, s in 2..8 (quick)/2..16 (thorough); scenarios: every drop/dup/none pattern over the first 4 (quick)/6 (thorough) data-phase packets client->server combined with patterns over the first 2/3 server->client packets, n in {1,2,3}; plus seeded random schedules n in {1,2,5,20,127,254} with bursts that wrap the sequence space; distinct = distinct scenario / queue tuple; non-trivial = at least one packet dropped or duplicated (scenarios), non-empty window (queue)",
         "assumptions": ["transport keeps per-direction order", "queue methods are atomic w.r.t. each other (C18)"],
     },
+    "C14": {
+        "title": "Message boundaries and contents survive chunking for every size",
+        "level": "proof",
+        "tests": [{"name": "TestC14"}],
+        "technique": "Lean 4 theorems reassemble_split / reassemble_msgs / recv_deadlines / C14_with_C01 over a literal model of Send's splitting loop and Recv's reassembly; counterexample theorem for Send deadlines; model tied to real client/server pairs (synctest) by comparing emitted chunk lists and Recv results",
+        "text": "For every payload length and every maxChunkSize (0 = off) the Lean model of Send's loop followed by Recv's loop returns exactly the payload, sequences of messages reassemble to themselves, Recv deadlines expiring anywhere inside a message never lose/merge/split data (partial buffer is connection state), and C01's packet-level prefix lifts to messages. The full statement including Send deadlines is proved false of the model (C14_send_deadline_counterexample) and the witness is replayed on the real connection (known finding). Tie: chunk (length, final) lists emitted by real Send and Recv results compared with the model for all L<=12 x M<=6 (quick) / L<=24 x M<=9 (thorough), all triples/quadruples of boundary lengths, large random payloads, and deadline sweeps at every chunk boundary.",
+        "note": "Full for the model; transport faults are covered by composition with C01 (C14_with_C01). Negative maxChunkSize is outside the property's configuration space.",
+        "design_ref": "DESIGN.md section 3, C14",
+        "rule": "one case = one real connection sending a sequence of messages; single lengths 0..L x maxChunk 0..M; sequences over {0,1,m-1,m,m+1,2m,2m+1}^3 (quick) or ^3 x {0,m,2m+1} (thorough); random large; recv/send deadline at every chunk boundary of c-chunk messages; distinct = distinct (maxChunk, lengths, deadline position); non-trivial = chunking enabled or a deadline firing inside a message",
+        "assumptions": ["Recv is called from one goroutine at a time"],
+    },
     "C19": {
         "title": "Wire codecs round-trip for all field values",
         "level": "proof",
